@@ -148,7 +148,7 @@ def run(lines, out, args):
             kwd = f[9]                        # which keyword-only parameters have defaults: string of 0/1 or '-'
             first = int(f[10])                # id of the first default value
             vals = f[11].split(",") if len(f) > 11 and f[11] != "-" else []    # value kinds of the defaults ('D': opaque)
-            with_self = kind == "M"
+            with_self = kind in ("M", "A")
             code = build(posonly, pos, va, kwonly, kw, nlocals, with_self)
             ids = [first + i for i in range(ndef)]
             defaults = tuple(VALUE_KINDS[vals[i]][1]() if i < len(vals) and vals[i] != "D" else Dflt(ids[i]) for i in range(ndef))
@@ -165,7 +165,7 @@ def run(lines, out, args):
                 npre = min(npre, code0.co_argcount)
             fn = types.FunctionType(code0, {}, "f", tuple(Dflt(5000 + i) for i in range(npre)) or None)
             try:
-                if kind in "MS":
+                if kind in "MSA":
                     fromMethod(type("C0", (), {"f": fn})().f)
                 else:
                     fromFunction(fn)
@@ -186,6 +186,16 @@ def run(lines, out, args):
                 C = type("C", (), {"f": fn})
                 target = C().f
                 m = fromMethod(target)
+                imlevel = 1
+            elif kind == "A":
+                # the method of an interface derived from an ABC (zope.interface.common): the ABC's function has an explicit
+                # self, the interface method has not
+                import abc
+                from zope.interface.common import ABCInterface, ABCInterfaceClass
+                Abc = abc.ABCMeta("Abc", (), {"f": fn, "__module__": "zi.gen"})
+                I = ABCInterfaceClass("IAbc", (ABCInterface,), {"abc": Abc, "__module__": "zi.gen"})
+                m = I["f"]
+                target = Abc().f
                 imlevel = 1
             elif kind == "I":
                 # ... and the interface also holds another function made from the SAME code object with other defaults
@@ -222,7 +232,7 @@ def run(lines, out, args):
             # the other places the rendered signature is observed at: str() / repr() of the description and the
             # interface's documentation
             try:
-                want_tail = ("zi.gen.I.f" if kind == "I" else "f") + sigstr
+                want_tail = ("zi.gen.I.f" if kind == "I" else "zi.gen.IAbc.f" if kind == "A" else "f") + sigstr
                 if str(m) != want_tail or not repr(m).endswith(" " + want_tail + ">"):
                     got += " STR-WRONG:%s" % str(m)[:80]
                 if kind == "I":
